@@ -19,10 +19,11 @@ LEVEL = 'exploration'
 RULE = ('each case = one endpoint (either role) brought to a random connection state (idle / open / closed by each route) '
         'with live, half-closed, closed-remembered, closed-forgotten and never-used stream ids, then 10-50 public calls '
         'with ints from {-1,0,1,2,live,closed,forgotten,highest+2,2^31-1,2^31,2^31+1,2^32,2^64}, sizes around windows and '
-        'frame limits, valid/invalid header lists; non-trivial = at least one raising call judged; distinct = hash of the '
+        'frame limits, valid/invalid header lists (blocks above the frame limit on new, live and promised streams), with the peer changing '
+        'MAX_FRAME_SIZE (raised before the streams exist, lowered after) and other limits between the calls; non-trivial = at least one raising call judged; distinct = hash of the '
         'call list with outcomes')
 MINIMA = {'calls_judged': 50000, 'raising_calls_output_checked': 10000, 'lookup_forgotten_judged': 500,
-          'lookup_never_used_judged': 500, 'documented_range_errors': 500, 'setups_with_unacknowledged_data': 500}
+          'lookup_never_used_judged': 500, 'documented_range_errors': 500, 'setups_with_unacknowledged_data': 500, 'setups_with_frame_size_limit_raised_and_lowered': 300}
 BIG = [2 ** 31 - 1, 2 ** 31, 2 ** 31 + 1, 2 ** 32, 2 ** 64]
 
 
@@ -36,7 +37,11 @@ def run_case(idx, rng, tier, rep):
     h = scen.Hostile(e_client, keep_log=True, handshake=(conn_state != 'idle'))
     t = h.t
     live, closed_rem, forgotten = [], [], []
+    raised_mfs = False
     if conn_state != 'idle':
+        if rng.random() < 0.3:
+            # the peer allows larger frames for a while (and may take that back once streams exist)
+            raised_mfs = h.send(wire.build_settings([(wire.S_MAX_FRAME_SIZE, rng.choice([16385, 32768, 2 ** 24 - 1]))])).ok
         for _ in range(rng.choice([0, 1, 2, 4])):
             st = rng.choice(['open', 'open_resp', 'hc_remote', 'hc_local', 'closed_es', 'closed_rst_sent', 'closed_rst_recv'])
             sid = h.reach(st)
@@ -59,6 +64,9 @@ def run_case(idx, rng, tier, rep):
                         break
                 rep.count('setups_with_unacknowledged_data')
                 break
+        if raised_mfs and rng.random() < 0.7:
+            h.send(wire.build_settings([(wire.S_MAX_FRAME_SIZE, 16384)]))
+            rep.count('setups_with_frame_size_limit_raised_and_lowered')
         if closed_rem and rng.random() < 0.6:
             h.cleanup()
             forgotten, closed_rem = closed_rem, []
@@ -142,7 +150,16 @@ def run_case(idx, rng, tier, rep):
         conn_is_open = fsm_before == ('CLIENT_OPEN' if e_client else 'SERVER_OPEN')
         op = rng.choice(['send_headers', 'send_data', 'end_stream', 'increment', 'push_stream', 'ping', 'reset_stream',
                          'close_connection', 'update_settings', 'altsvc', 'prioritize', 'ack', 'local_window',
-                         'remote_window', 'next_id', 'data_to_send', 'initiate', 'send_headers_big'])
+                         'remote_window', 'next_id', 'data_to_send', 'initiate', 'send_headers_big', 'peer_settings'])
+        if op == 'peer_settings':
+            # not a call under judgement: the peer changes a limit, so that later calls meet streams created under another one
+            if conn_is_open and rng.random() < 0.5:
+                h.send(wire.build_settings([rng.choice([(wire.S_MAX_FRAME_SIZE, rng.choice([16384, 16384, 20000, 32768])),
+                                                        (wire.S_INITIAL_WINDOW_SIZE, rng.choice([0, 100, 65535, 100000])),
+                                                        (wire.S_MAX_CONCURRENT_STREAMS, rng.choice([0, 1, 100])),
+                                                        (wire.S_HEADER_TABLE_SIZE, rng.choice([0, 100, 4096]))])]))
+                rep.count('peer_settings_changes_between_calls')
+            continue
         if op == 'close_connection' and rng.random() < 0.7:
             continue
         sid = ints()
@@ -159,10 +176,17 @@ def run_case(idx, rng, tier, rep):
             judge(op, res, False)
         elif op == 'send_headers_big':
             # header block at / above the frame-size limit, with and without (valid) priority arguments
+            big = [(b'x-big', bytes(rng.randrange(256) for _ in range(64)) * rng.choice([200, 256, 300, 700]))]
             if not e_client:
+                # a response or trailers on a stream the server may use (promised ones included)
+                if not live:
+                    continue
+                res = t.call('send_headers', rng.choice(live), rng.choice([RESP, RESP, [(b':status', b'103')], []]) + big,
+                             end_stream=rng.random() < 0.4)
+                judge('send_headers', res, False)
                 continue
             nsid = getattr(t.c, 'highest_outbound_stream_id', 0) + (2 if getattr(t.c, 'highest_outbound_stream_id', 0) else 1)
-            hs = REQ + [(b'x-big', bytes(rng.randrange(256) for _ in range(64)) * rng.choice([200, 256, 300, 700]))]
+            hs = REQ + big
             kw = {}
             if rng.random() < 0.6:
                 kw = {'priority_weight': rng.choice([1, 16, 256]), 'priority_depends_on': rng.choice([0, 1]),
